@@ -92,6 +92,22 @@ func (v verificationMethodValidator) Validate(document did.Document) error {
 			return fmt.Errorf("invalid verificationMethod: %w", err)
 		}
 	}
+	// verification methods embedded in a verification relationship are not listed in verificationMethod, same rules apply
+	for _, relationships := range []did.VerificationRelationships{document.Authentication, document.AssertionMethod,
+		document.KeyAgreement, document.CapabilityInvocation, document.CapabilityDelegation} {
+		for _, relationship := range relationships {
+			method := relationship.VerificationMethod
+			if method == nil {
+				continue
+			}
+			if err := verifyDocumentEntryID(document.ID, method.ID.URI(), map[string]bool{}); err != nil {
+				return fmt.Errorf("invalid verificationMethod: %w", err)
+			}
+			if err := v.verifyThumbprint(method); err != nil {
+				return fmt.Errorf("invalid verificationMethod: %w", err)
+			}
+		}
+	}
 	return nil
 }
 
